@@ -90,6 +90,11 @@ def run(ctx):
                                                   "root verifies, else first failing element from the root' "
                                                   "(%s)" % label,
                                           "expected": exp, "got": got, "doc": d})
+            ra = obs.get("results_all")
+            if ra is not None and (isinstance(ra, tuple) or [tuple(r) for r in ra] != got):
+                res["violations"].append({"key": "C06:verdict-depends-on-other-targets:%s" % kind,
+                                          "what": "validating all targets in one call gives %r, each target "
+                                                  "on its own gives %r (%s)" % (ra, got, label), "doc": d})
             if label == "genuine" and not all(r[0] is True for r in got):
                 res["violations"].append({"key": "C06:genuine-rejected", "what": "genuine chain rejected"})
             terms.append(certs.to_ccase(d, truth, obs))
